@@ -59,7 +59,7 @@ def history(seed):
     from frame.die.die import Die
     from frame.allocation.allocation import Allocation, create_initial_allocation
     from frame.geometry.geometry import Rectangle, Point, Shape, create_stog
-    from frame.utils.utils import write_yaml
+    from json import dumps as write_yaml        # input documents are written WITHOUT the library (JSON is a subset of YAML): the harness must not depend on the code under test
     import tools.rect.pseudobool as pb
     from tools.rect.satmanager import SATManager
     rng = random.Random(seed)
@@ -123,7 +123,7 @@ def sibling(name, scale, seed):
     from frame.die.die import Die
     from frame.allocation.allocation import create_initial_allocation
     from frame.geometry.geometry import Rectangle, Point, Shape, create_stog
-    from frame.utils.utils import write_yaml
+    from json import dumps as write_yaml        # input documents are written WITHOUT the library (JSON is a subset of YAML): the harness must not depend on the code under test
     rng = random.Random(seed)
     s = scale
     try:
@@ -164,7 +164,7 @@ def probe(name, scale):
     from frame.die.die import Die
     from frame.allocation.allocation import create_initial_allocation
     from frame.geometry.geometry import Rectangle, Point, Shape, create_stog
-    from frame.utils.utils import write_yaml
+    from json import dumps as write_yaml        # input documents are written WITHOUT the library (JSON is a subset of YAML): the harness must not depend on the code under test
     out = {}
     s = scale
     with contextlib.redirect_stdout(io.StringIO()):
